@@ -22,6 +22,14 @@ CHECKS = {
         text="Waiter ledger frozen when an event is processed; the following resumptions/callbacks must be exactly the registered "
              "waiters, in order, each with the event's own outcome; unhandled failures must escape run() in that very step.",
         note="trusts the harness's identification of waiters at the process/callback boundary"),
+    "C03": dict(
+        technique="runtime monitor: trace-digest equality across re-runs / interpreter processes / PYTHONHASHSEED values + split-plan transparency oracle against the uninterrupted tape",
+        level="exploration", ref="DESIGN.md 4/C03",
+        text="Each program is executed uninterrupted and under a random plan of run(until=number|event)/step() calls; after every "
+             "stop now == t bit-exactly and the tape so far is exactly the prefix of the uninterrupted tape that the statement "
+             "prescribes; at the end the tapes are equal. Digests of kernel programs and network scenarios are compared across "
+             "fresh interpreters under several hash seeds.",
+        note="the comparison covers a run up to and including its first escaping failure; hash seeds are sampled"),
     "C04": dict(
         technique="runtime monitor: interrupt ledger + shadow agenda + resumption-source check + spec-kernel tape equality",
         level="exploration", ref="DESIGN.md 4/C04",
@@ -35,6 +43,20 @@ CHECKS = {
              "value set (leaves processed before the condition's own processing step, operand order) are recomputed from probes "
              "and compared with what the waiter received.",
         note="orders that depend on the unobservable processing step of a nested condition are decided by the spec-kernel comparison only"),
+    "C06": dict(
+        technique="runtime monitor: request shadow + users-diff at every harness op and kernel step; capacity / grant-order / no-idle-slot (clock-advance hook) / preemption-decision invariants",
+        level="exploration", ref="DESIGN.md 4/C06",
+        text="Invariants evaluated on the real Resource/PriorityResource/PreemptiveResource at every kernel step and every clock "
+             "advance over random request/release/cancel/with histories with dense coincidences; evictions are attributed through the "
+             "Preempted cause the victim receives.",
+        note="quantifier respected: one live request per process and resource; positive preemption expectation only for head requests"),
+    "C07": dict(
+        technique="runtime monitor: conservation ledger by item identity + order oracles + strict FCFS + head-of-queue-unsatisfiable check at every clock advance",
+        level="exploration", ref="DESIGN.md 4/C07",
+        text="Ledger over random put/get/cancel histories on Container/Store/PriorityStore/FilterStore with equal-but-distinct items; "
+             "public level/items compared with the ledger after every op and kernel step; reference satisfiability predicate evaluated "
+             "on the oldest pending put/get whenever the clock is about to advance.",
+        note="FCFS read strictly (FilterStore getters exempt); filters depend on item fields only"),
 }
 
 PENDING = {}
